@@ -10,6 +10,7 @@ RULE = (
     "last-added probability at cumsum_biggest_until, and fm / cell centres at _compute; the oracle recomputes every cell probability from the REFERENCE "
     "cdfs, checks the prefix/tie rule, both content inequalities (math.fsum, slack N*eps), fm, warning <=> grid content < 1-alpha and the region "
     "recomputed from the public fm. Non-trivial = >= 100 cells and a conditional variable; distinct = (spec signature, alpha, grid, forms)."
+    ' Also: one 3-D grid above 2**24 cells per run, unit-rescaled specs, a user-defined mixture family (modes side by side, 2x2, a second region of 1-3 cells found in a second pass), default grids over a variable with mass below zero, two contours in one warnings context, an oblique one-cell ridge.'
 )
 ASSUMPTIONS = [
     "reference cdfs (refmodel.py); conditional distributions evaluated at the centre of the conditioning cell, as documented",
